@@ -13,21 +13,21 @@ CLAIMED = {
  'C01': ('must-fill ghost-state abstract interpretation of the read handlers, alignment/interval facts for the zero-once request, data-dependence pairing and dispatch rules',
          'every Ok(n != 0) of a read handler is preceded by a fill of the caller buffer on all paths, backend read counts are compared with the requested length, zero-once covers exactly the cluster, installed fresh clusters are registered as new, every mapping kind is dispatched, L2 entries are classified as the specification says (216 descriptor partitions), an installed host cluster lies inside the granted run; index arithmetic of the lookup/split, overlay order and equality with a reference disk not decided', 'C01'),
  'C02': ('dirty-tracking typestate over the async call graph (tabulating abstract interpretation)',
-         'mutation=>dirty, victims=>flusher, cleared=>written, complete sweeps before Ok, zero-once not bypassed, whole-slice writes, no cache entry dropped without a dirty-flag decision: decided on all paths of all public operations; byte equality after reopen not decided', 'C02'),
+         'mutation=>dirty, victims=>flusher, cleared=>written, complete sweeps before Ok, zero-once not bypassed, whole-slice writes, no cache entry dropped without a dirty-flag decision, flag cleared no later than the release of the guard held across the write, popped top-table block written before Ok, in-use slices not preferred for eviction: decided on all paths of all public operations; byte equality after reopen not decided', 'C02'),
  'C04': ('backend-effect ordering typestate with history closure (tabulating abstract interpretation over MIR)',
          'ordering obligations O1-O8 + phase rule at every backend write on every path, closed over all API histories; crash images themselves not decided', 'C04'),
  'C05': ('must-pass-through / typestate over the async call graph + sibling check of the fsync implementations',
-         'fsync_range reaches the barrier, every backend fsync reaches a sync primitive, flush_meta complete on every Ok path, slices written whole and only after zero-once resolution, runs returned by the allocator built from adjacent pieces only; per-block crash values not decided', 'C05'),
+         'fsync_range reaches the barrier, every backend fsync reaches a sync primitive, flush_meta complete on every Ok path, slices written whole and only after zero-once resolution, runs returned by the allocator built from adjacent pieces only, every flush phase under the flush mutex; per-block crash values not decided', 'C05'),
  'C06': ('held-lock dataflow at request creation/poll, guard provenance of decisions and mutations (critical-section rules)',
-         'linearizability over schedules is NOT decided; decided are necessary critical-section conditions: check-then-act under one slice write guard, requests created under the per-cluster guard complete under it, COW merge under per-cluster and L2 slice write guards, eviction prefers unused entries, a cached slice is reloaded from the file only behind an is_update() test', 'C06'),
+         'linearizability over schedules is NOT decided; decided are necessary critical-section conditions: check-then-act under one slice write guard, requests created under the per-cluster guard complete under it, COW merge under per-cluster and L2 slice write guards, eviction prefers unused entries (test present and not subordinated in an ordering key), entries leave the cache only unused, a cached slice is reloaded from the file only behind an is_update() test', 'C06'),
  'C07': ('held-lock dataflow, mode-aware lock-order cycle search, guard-across-await scan, insert/lookup typestate',
-         'deadlock clause: lock-order relation acyclic (mode aware, one thread per device), no self re-acquisition, no blocking guard across awaits, no suspension between cache insert and re-lookup; livelock/termination not decided', 'C07'),
+         'deadlock clause: lock-order relation acyclic (mode aware, one thread per device), no self re-acquisition (one finding per route), no blocking guard across awaits, no suspension between cache insert and re-lookup; livelock/termination not decided', 'C07'),
  'C03': ('bit-provenance abstract interpretation of the installers, must-use def-use of the displaced allocation, data-dependence provenance of every release',
          'COPIED flag and offset field of installed L1/L2 entries, fate of the allocation displaced by map_cluster, source of every free_clusters argument, no constant-zero release count, check-then-act under one slice guard, release of the fresh cluster when a COW step fails: decided at every site; equality of stored and counted references (arithmetic of spans and counts) not decided', 'C03'),
  'C11': ('alignment/interval abstract interpretation of the discard walk (order facts, loop invariants), dominance and data-dependence rules on the per-cluster routine, path-condition typed constants',
          'inward rounding and clipping of the walked range, exact one-cluster advance, argument-independent success, no-op exits dominate every mutation, stored entry keeps zeros with a backing file, provenance of release and punch, zero-write fallback for every failure of the request, release/punch adjacency, decision and clearing under one slice guard: decided on every path; bytes read after discard and persistence not decided', 'C11'),
  'C12': ('backend-effect ordering typestate (growth sites of the C04 engine), fault-model typestate for the rollback, data-dependence provenance of the rollback closure, dominance of the zero-length guard, held-lock dataflow',
-         'header switch after the relocated table is synced, old table released after the synced switch, rollback runs and restores old-state values, directly written refblock private and zero-padded, zero-length requests filtered, no self-deadlock on the growth path, the count mirrored into the L1 table equals the count committed to the header, installs stay inside a short grant at a refblock boundary; computed sizes not decided', 'C12'),
+         'header switch after the relocated table is synced, old table released after the synced switch, rollback runs and restores old-state values, directly written refblock private and zero-padded, zero-length requests filtered, no self-deadlock on the growth path, the count mirrored into the L1 table equals the count committed to the header, installs stay inside a short grant at a refblock boundary, the table copy leaves its source untouched, no top-table write in the group that zeroes its range; computed sizes not decided', 'C12'),
  'C09': ('interval abstract interpretation with value numbering (constant propagation per cluster size x refcount width, order facts), header layout scan',
          'version-2 defaults at every Ok exit of the parser, header layout and codec configuration, panic freedom of the device constructor over the accept set (182 configurations), derived geometry = specification formulas in 91 configurations, bounce read of a compressed cluster covers the data, classification of every L2 descriptor partition, table cluster counts of the formatter cover the byte sizes, extension cursor 8-aligned; agreement of reads with an independent implementation and validity of formatted images not decided', 'C09'),
  'C14': ('interval abstract interpretation over MIR (value numbering, order facts, widening, cluster_bits partitioning, small value sets for enum discriminants)',
@@ -37,15 +37,15 @@ CLAIMED = {
  'C16': ('alignment abstract interpretation (multiples of 2^shift with symbolic block/slice/cluster shifts over the interval engine), modular assume/guarantee over the async call graph, buffer provenance',
          'offset, length and buffer of every backend read/write/zero request, sizes of all table buffers and all recorded table offsets are block multiples on every path, from the validated public API down to the trait calls; assumes cluster >= slice >= block, cluster-aligned host offsets in a spec-valid image, an aligned caller buffer', 'C16'),
  'C17': ('error-value def-use discipline + restore/undo typestate in the fault model',
-         'no dropped Qcow2Result and no error-discarding combinator; restore and release when a COW step fails; flags/queue entries restored on error exits; rollback and zero-write fallback on failing requests; state after retries not decided', 'C17'),
+         'no dropped Qcow2Result and no error-discarding combinator; restore and release when a COW step fails; flags/queue entries restored on error exits; rollback and zero-write fallback on failing requests; no shrink after a failed flush and no short-circuiting join over table writes while a failed write leaves its slice clean; state after retries not decided', 'C17'),
  'C08': ('guard provenance + no-suspension scan/increment rule, control/data dependence of the free-hint updates, path-sensitive run-restart pairing',
-         'scan+increment atomic under one guard, allocated range derives from the scan, hint updates guarded, release decided under the unmapping guard, run start re-established on restart, pieces of a returned run compared for adjacency, installed clusters inside the granted run, previous entry put back when a COW step fails; numeric ownership not decided', 'C08'),
+         'scan+increment atomic under one guard, allocated range derives from the scan, hint updates guarded, release decided under the unmapping guard, run start re-established on restart, pieces of a returned run compared for adjacency, installed clusters inside the granted run, in-use test of the eviction not subordinated, previous entry put back when a COW step fails; numeric ownership not decided', 'C08'),
  'C10': ('guarded reachability (read-only test / dirty-token gates as path facts over the async call graph), dominance and provenance rules',
          'every primary modifying effect lies behind a read-only test or a dirty-token test on every path from every public method; backing devices forced read-only; only reads on the backing receiver; COW structural conditions, roll-back of a failed copy, no fresh install for Compressed/Backing mappings outside the COW routine (abstract interpretation per forced mapping kind); byte-level merge not decided', 'C10'),
  'C13': ('dominance of validation checks over every suspension point + flow-aware data-dependence slices (taint of raw arguments into overflow-checked arithmetic)',
          'validation checks exist, reject without suspending and dominate every await; no overflow-checked arithmetic on raw arguments before a check on them; beyond-the-end credit only for backing devices, device-kind flag predicates test separate bits; arithmetic results not decided', 'C13'),
  'C18': ('flag-protocol typestate over the async call graph + loop/phase dominance rule',
-         'need_flush raised adjacent to every dirtying event; lowered only before complete sweeps of every metadata kind and raised again (with a value that is true on that path) before every error return, with and without backend faults; refcount sweep in every flush pass; agreement of file and memory as such not decided', 'C18'),
+         'need_flush raised adjacent to every dirtying event; lowered only before complete sweeps of every metadata kind and raised again (with a value that is true on that path) before every error return, with and without backend faults; refcount sweep in every flush pass; cache entries dropped only unused; agreement of file and memory as such not decided', 'C18'),
  'C19': ('sibling cross-check of the three Qcow2IoOps implementations (data-dependence slices, dominance, loop/accumulation rule) + fault-model typestate for the punch fallback',
          'read count provenance, short-write handling, flush of buffered writers, offset pass-through, a read primitive that reports short reads, shared punch helper and flags with the requested range passed unchanged and no Ok bypassing the syscall, zero-write fallback, sync primitive reachability agree across the three backends; equality with the host-file model not decided', 'C19'),
  'C20': ('alignment abstract interpretation of the rqcow2 target, must-pass-through on the copy routines, data-dependence and sibling field-agreement rules on the leak check',
